@@ -325,7 +325,10 @@ def sum_(*args):
     return sum(data)
 
 
-def sumif(rng, criteria, sum_range=None):
+_OMITTED = object()
+
+
+def sumif(rng, criteria, sum_range=_OMITTED):
     # Excel reference: https://support.microsoft.com/en-us/office/
     #   SUMIF-function-169b8c99-c05c-4483-a712-1697a653039b
 
@@ -337,7 +340,8 @@ def sumif(rng, criteria, sum_range=None):
     #  beginning cell, and then including cells that correspond in size and
     #  shape to the range argument.
 
-    if sum_range is None:
+    if sum_range is _OMITTED:
+        # (a blank single cell arrives as None, it is not an omitted argument)
         sum_range = rng
     return sumifs(sum_range, rng, criteria)
 
